@@ -150,6 +150,33 @@ def handleBusy (fs : List (String × String)) : String :=
     else none
   verdict (ok == expectOk) bad true s!"busy-{if expectOk then "below" else "at"}-limit" (if ok == expectOk then "" else s!"model-join-ok={expectOk}")
 
+/-- one Join naming several hosts: per host `veto,hostListsJoiner,joinerListsHost`. Every exchange is a join,
+so every merge delegate is asked: the side whose delegate vetoes changes nothing (a vetoing host does not
+list the joiner; a vetoing joiner lists no host and counts no success), the other side merges what it
+received; without a veto the pair ends up mutual. (A later host may learn of an earlier one through the
+joiner's state: only the pair joiner / host is judged.) -/
+def handleMulti (fs : List (String × String)) : String := Id.run do
+  let parts := splitNE (getD fs "hosts" "") ","
+  let joined := (getNat fs "joined").getD 0
+  let jveto := getD fs "jveto" "0" == "1"
+  let mut bad : Option String := none
+  let mut idx := 0
+  for p in parts do
+    match p.toList with
+    | [v, h, j] =>
+      if v == '1' && h == '1' && bad.isNone then
+        bad := some s!"host-{idx}-merged-the-joiner-although-its-merge-delegate-vetoed"
+      if jveto && j == '1' && bad.isNone then
+        bad := some s!"joiner-merged-host-{idx}-although-its-merge-delegate-vetoed"
+      if v != '1' && h != '1' && bad.isNone then
+        bad := some s!"host-{idx}-does-not-list-the-joiner-after-an-exchange-it-accepted"
+      if !jveto && j != '1' && bad.isNone then
+        bad := some s!"joiner-does-not-list-host-{idx}-after-an-exchange-it-accepted"
+    | _ => return "PARSE hosts"
+    idx := idx + 1
+  let want := if jveto then 0 else parts.length
+  return verdict (joined == want && bad.isNone) bad (parts.length ≥ 2) s!"multi-{parts.length}-jveto{if jveto then 1 else 0}" (if joined == want then "" else s!"model-joined={want}")
+
 def handle (kind : String) (fs : List (String × String)) : String :=
   match kind with
   | "vp" => handleVp fs
@@ -159,6 +186,7 @@ def handle (kind : String) (fs : List (String × String)) : String :=
   | "cap" => handleCap fs
   | "ppf" => handlePpf fs
   | "busy" => handleBusy fs
+  | "multi" => handleMulti fs
   | "rrs" => Swim.Drv.Msgpack.handleRrs fs
   | _ => "PARSE kind"
 
